@@ -1634,6 +1634,644 @@ fn stream_bits(run: &mut Run) {
     }
 }
 
+// ------------------------------------------------------------------------------------------------
+// SegmentCumSum, CuckooHash (model + oracle); CuckooToPermutation, DecomposeSwitchingMap (randomised:
+// oracle only); Zip / Repeat / tuple plumbing (model + oracle)
+// ------------------------------------------------------------------------------------------------
+
+/// like `settle` without an expected value: emits the model case and hands the parsed result
+/// (`None` = run-time error) to the caller's oracle
+fn settle_raw(run: &mut Run, op: &str, req: String, out: Outcome, nontrivial: bool) -> Option<Option<(Vec<u64>, Vec<u128>)>> {
+    run.count(&format!("op:{}", op));
+    run.oracle_case(&req, nontrivial);
+    match out {
+        Outcome::Panic(p) => {
+            run.oracle_fail(&format!("C10:panic:{}", op), format!("{} panicked: {}", req, p));
+            None
+        }
+        Outcome::Rejected => {
+            run.oracle_fail(&format!("C10:unexpected-reject:{}", op), format!("{} rejected by the builder", req));
+            None
+        }
+        Outcome::EvalErr => {
+            run.count(&format!("err:{}", op));
+            run.case(req, "ERR".to_owned(), nontrivial);
+            Some(None)
+        }
+        Outcome::Done(t, v) => match read_result(&t, &v) {
+            None => {
+                run.oracle_fail(&format!("C10:result-type:{}", op), format!("{} result does not have the node type", req));
+                None
+            }
+            Some((dims, data, _)) => {
+                run.case(req, show_list(&data), nontrivial);
+                Some(Some((dims, data)))
+            }
+        },
+    }
+}
+
+fn stream_segcumsum(run: &mut Run) {
+    let mut rng = run.rng("segcs");
+    for _ in 0..run.tier.scale(2500, 20000) {
+        let st = if rng.chance(1, 3) { *rng.pick(&[UINT128, INT128]) } else { pick_st(&mut rng) };
+        let w = st_bits(st);
+        let n: u64 = match rng.below(6) {
+            0 => 1,
+            1 => 2,
+            _ => 1 + rng.below(9),
+        };
+        let scalar_row = rng.chance(1, 3);
+        let rest: Vec<u64> = if scalar_row { vec![] } else { gen_shape(&mut rng, 2, 3, 6) };
+        let row = rest.iter().product::<u64>() as usize;
+        let mut shape = vec![n];
+        shape.extend(&rest);
+        let a = gen_opd(&mut rng, &shape, false, st);
+        let kind = rng.below(6);
+        let bits: Vec<u128> = (0..n)
+            .map(|i| match kind {
+                0 => 0,                       // every row starts a segment
+                1 => 1,                       // one segment, begun by the first row
+                2 => (i % 2) as u128,
+                3 => (i != n / 2) as u128,    // exactly one segment start
+                _ => rng.below(2) as u128,
+            })
+            .collect();
+        run.count(&format!("segcs:bits-kind:{}", kind.min(4)));
+        let b = Opd { st: BIT, dims: vec![n], scalar: false, data: bits.clone() };
+        let first = if scalar_row { gen_opd(&mut rng, &[1], true, st) } else { gen_opd(&mut rng, &rest, false, st) };
+        // oracle A: the documented iteration output[i] = A[i-1] + B[i-1] * output[i-1], output[0] = v
+        let mut it: Vec<u128> = first.data.clone();
+        for i in 0..n as usize {
+            for j in 0..row {
+                let prev = it[i * row + j];
+                let x = a.data[i * row + j];
+                it.push(mask(x.wrapping_add(bits[i].wrapping_mul(prev)), w));
+            }
+        }
+        // oracle B: segment sums (rows since the last row with B = 0; the first row when there is none)
+        let mut seg: Vec<u128> = vec![];
+        for i in 0..=n as usize {
+            let start = (0..i).rev().find(|s| bits[*s] == 0);
+            for j in 0..row {
+                let mut acc = if start.is_none() { first.data[j] } else { 0 };
+                for k in start.unwrap_or(0)..i {
+                    acc = acc.wrapping_add(a.data[k * row + j]);
+                }
+                seg.push(mask(acc, w));
+            }
+        }
+        if it != seg {
+            run.oracle_fail("C10:oracle-self:SegmentCumSum", format!("iteration {:?} vs segments {:?}", it, seg));
+        }
+        let mut rshape = shape.clone();
+        rshape[0] += 1;
+        let out = eval_op(&[(a.ty(), a.value()), (b.ty(), b.value()), (first.ty(), first.value())], &|g, nn| {
+            g.segment_cumsum(nn[0].clone(), nn[1].clone(), nn[2].clone())
+        });
+        let (a2, f2, bits2) = (a.clone(), first.clone(), bits.clone());
+        settle(
+            run,
+            "SegmentCumSum",
+            &move |_sr: &[u64]| format!("segcs {} {} {} {} {}", st_name(st), row, show_list(&a2.data), show_list(&bits2), show_list(&f2.data)),
+            out,
+            Expect { data: Some(seg), dims: Some(rshape) },
+            false,
+            true,
+        );
+    }
+}
+
+/// GF(2) matrix-vector product of hash matrix `f` with a string: bit `r` of the index is row `r` · string
+fn ref_hash(hm: &[u128], rows: usize, cols: usize, f: usize, s: &[u128]) -> usize {
+    let mut idx = 0usize;
+    for r in 0..rows {
+        let mut bit = 0u128;
+        for c in 0..cols {
+            bit = (bit + hm[(f * rows + r) * cols + c] * s[c]) % 2;
+        }
+        idx += (bit as usize) << r;
+    }
+    idx
+}
+
+const DUMMY: u128 = u64::MAX as u128;
+
+fn stream_cuckoo(run: &mut Run) {
+    let mut rng = run.rng("cuckoo");
+    // tables that came out of successful runs feed the CuckooToPermutation stream
+    let mut tables: Vec<Vec<u128>> = vec![];
+    for _ in 0..run.tier.scale(1500, 12000) {
+        let rows = 1 + rng.below(4) as usize;
+        let tsize = 1usize << rows;
+        let bl = 1 + rng.below(6) as usize;
+        let h = 3 + rng.below(3) as usize;
+        let sets_shape: Vec<u64> = match rng.below(6) {
+            0 => vec![2],
+            1 => vec![1 + rng.below(3)],
+            2 => vec![2, 2],
+            _ => vec![],
+        };
+        let nsets = sets_shape.iter().product::<u64>() as usize;
+        let kind = rng.below(8);
+        let n: usize = match kind {
+            0 => 1,
+            1 => tsize + 1, // pigeonhole: must fail
+            2 => tsize,     // full table
+            3 => (tsize * 3 / 4).max(1),
+            _ => 1 + rng.below(tsize as u64 / 2 + 1) as usize,
+        };
+        // strings: distinct when possible (3 of 4 runs), else arbitrary (equal strings share all positions)
+        let distinct = rng.chance(3, 4) && (1usize << bl) >= n;
+        let mut inp: Vec<u128> = vec![];
+        for _ in 0..nsets {
+            if distinct {
+                let mut all: Vec<usize> = (0..1usize << bl).collect();
+                rng.shuffle(&mut all);
+                for x in all.iter().take(n) {
+                    for c in 0..bl {
+                        inp.push(((x >> c) & 1) as u128);
+                    }
+                }
+            } else {
+                for _ in 0..n * bl {
+                    inp.push(rng.below(2) as u128);
+                }
+            }
+        }
+        let hm: Vec<u128> = (0..h * rows * bl)
+            .map(|_| if kind == 7 && rng.chance(1, 2) { 0 } else { rng.below(2) as u128 })
+            .collect();
+        let mut ishape = sets_shape.clone();
+        ishape.push(n as u64);
+        ishape.push(bl as u64);
+        let a = Opd { st: BIT, dims: ishape, scalar: false, data: inp.clone() };
+        let m = Opd { st: BIT, dims: vec![h as u64, rows as u64, bl as u64], scalar: false, data: hm.clone() };
+        let out = eval_op(&[(a.ty(), a.value()), (m.ty(), m.value())], &|g, nn| g.cuckoo_hash(nn[0].clone(), nn[1].clone()));
+        let req = format!("cuckoo {} {} {} {} {} {} {} {}", nsets, n, bl, h, rows, bl, show_list(&inp), show_list(&hm));
+        // an eviction certainly happens when two strings of a set collide under hash function 0
+        let collide = (0..nsets).any(|s| {
+            let hs: Vec<usize> = (0..n).map(|i| ref_hash(&hm, rows, bl, 0, &inp[(s * n + i) * bl..(s * n + i + 1) * bl])).collect();
+            (0..n).any(|i| (0..i).any(|j| hs[i] == hs[j]))
+        });
+        if collide {
+            run.count("cuckoo:eviction");
+        }
+        let res = match settle_raw(run, "CuckooHash", req.clone(), out, true) {
+            None => continue,
+            Some(r) => r,
+        };
+        match res {
+            None => {
+                run.count(if n > tsize { "cuckoo:fail-pigeonhole" } else { "cuckoo:fail-other" });
+            }
+            Some((dims, data)) => {
+                run.count("cuckoo:success");
+                if collide {
+                    run.count("cuckoo:success-after-eviction");
+                }
+                let mut want = sets_shape.clone();
+                want.push(tsize as u64);
+                if dims != want {
+                    run.oracle_fail("C10:shape:CuckooHash", format!("{} result dims {:?}, documented {:?}", req, dims, want));
+                    continue;
+                }
+                if n > tsize {
+                    run.oracle_fail("C10:oracle:CuckooHash", format!("{} succeeded with more strings than cells", req));
+                    continue;
+                }
+                // placement: every string index exactly once, in one of its hash cells; sentinel elsewhere
+                for s in 0..nsets {
+                    let t = &data[s * tsize..(s + 1) * tsize];
+                    let mut bad = None;
+                    for i in 0..n {
+                        let cells: Vec<usize> = (0..tsize).filter(|c| t[*c] == i as u128).collect();
+                        let str_i = &inp[(s * n + i) * bl..(s * n + i + 1) * bl];
+                        if cells.len() != 1 {
+                            bad = Some(format!("index {} occupies {} cells", i, cells.len()));
+                        } else if !(0..h).any(|f| ref_hash(&hm, rows, bl, f, str_i) == cells[0]) {
+                            bad = Some(format!("index {} sits in cell {} which is none of its hash positions", i, cells[0]));
+                        }
+                    }
+                    if t.iter().any(|x| *x != DUMMY && *x >= n as u128) {
+                        bad = Some("a cell holds neither an index nor the sentinel".to_owned());
+                    }
+                    if let Some(b) = bad {
+                        run.oracle_fail("C10:oracle:CuckooHash", format!("{} => {} set {}: {}", req, show_list(&data), s, b));
+                    }
+                    if tables.len() < 4000 {
+                        tables.push(t.to_vec());
+                    }
+                }
+            }
+        }
+    }
+    stream_cuckoo_to_permutation(run, &tables);
+}
+
+/// evaluate a one-input graph whose result is not a plain array
+fn eval_any(inputs: &[(Type, Value)], build: &dyn Fn(&Graph, &[Node]) -> Result<Node>) -> Outcome {
+    eval_op(inputs, build)
+}
+
+/// CuckooToPermutation is randomised: property-level oracle only.  On a valid table (distinct indices
+/// `0..k-1` and `T-k` sentinels) the result is a permutation of `0..T-1` that agrees with the table on
+/// every non-sentinel cell; a table with a duplicate or an index `≥ k` is a run-time error.
+fn stream_cuckoo_to_permutation(run: &mut Run, from_hash: &[Vec<u128>]) {
+    let mut rng = run.rng("cuckoo2perm");
+    for it in 0..run.tier.scale(1200, 8000) {
+        let nt = 1 + rng.below(3) as usize;
+        let mut valid = true;
+        let mut data: Vec<u128> = vec![];
+        let tsize: usize;
+        if it % 3 == 0 && !from_hash.is_empty() {
+            let t0 = rng.pick(from_hash).clone();
+            tsize = t0.len();
+            data.extend(&t0);
+            for _ in 1..nt {
+                let t = rng.pick(from_hash);
+                if t.len() == tsize {
+                    data.extend(t);
+                }
+            }
+        } else {
+            tsize = 1 + rng.below(8) as usize;
+            for _ in 0..nt {
+                let k = rng.below(tsize as u64 + 1) as usize;
+                let mut t: Vec<u128> = (0..k as u128).collect();
+                t.resize(tsize, DUMMY);
+                rng.shuffle(&mut t);
+                if k > 0 && rng.chance(1, 6) {
+                    // malformed: a duplicate, or an index that is too large
+                    let pos = (0..tsize).find(|c| t[*c] != DUMMY).unwrap();
+                    if k >= 2 && rng.chance(1, 2) {
+                        t[pos] = (t[pos] + 1) % k as u128;
+                    } else {
+                        t[pos] = k as u128 + rng.below(2) as u128;
+                    }
+                    valid = false;
+                }
+                data.extend(&t);
+            }
+        }
+        let ntab = data.len() / tsize;
+        let shape: Vec<u64> = if ntab == 1 && rng.chance(1, 2) { vec![tsize as u64] } else { vec![ntab as u64, tsize as u64] };
+        let a = Opd { st: UINT64, dims: shape.clone(), scalar: false, data: data.clone() };
+        let out = eval_op(&[(a.ty(), a.value())], &|g, nn| g.cuckoo_to_permutation(nn[0].clone()));
+        let descr = format!("cuckoo_to_permutation {} {}", show_list(&shape), show_list(&data));
+        run.count("op:CuckooToPermutation");
+        run.oracle_case(&descr, true);
+        match out {
+            Outcome::Panic(p) => run.oracle_fail("C10:panic:CuckooToPermutation", format!("{} panicked: {}", descr, p)),
+            Outcome::Rejected => run.oracle_fail("C10:unexpected-reject:CuckooToPermutation", descr),
+            Outcome::EvalErr => {
+                run.count("err:CuckooToPermutation");
+                if valid {
+                    run.oracle_fail("C10:oracle:CuckooToPermutation", format!("{} => run-time error on a valid table", descr));
+                }
+            }
+            Outcome::Done(t, v) => match read_result(&t, &v) {
+                None => run.oracle_fail("C10:result-type:CuckooToPermutation", descr),
+                Some((dims, res, _)) => {
+                    if !valid {
+                        run.oracle_fail("C10:oracle:CuckooToPermutation", format!("{} => {} accepted a malformed table", descr, show_list(&res)));
+                        continue;
+                    }
+                    let mut ok = dims == shape && res.len() == data.len();
+                    if ok {
+                        for ti in 0..ntab {
+                            let (x, r) = (&data[ti * tsize..(ti + 1) * tsize], &res[ti * tsize..(ti + 1) * tsize]);
+                            let mut sorted = r.to_vec();
+                            sorted.sort();
+                            ok &= sorted == (0..tsize as u128).collect::<Vec<_>>();
+                            ok &= (0..tsize).all(|c| x[c] == DUMMY || x[c] == r[c]);
+                        }
+                    }
+                    if !ok {
+                        run.oracle_fail("C10:oracle:CuckooToPermutation", format!("{} => {} is not a permutation extending the table", descr, show_list(&res)));
+                    }
+                }
+            },
+        }
+    }
+}
+
+/// DecomposeSwitchingMap(n) is randomised: property-level oracle only.  For every map (last axis):
+/// `perm1` has distinct entries below `n`, the duplication map obeys
+/// `dup[i] = bits[i] ? dup[i-1] : i` with `bits[0] = 0`, `perm2` is a permutation of the positions, and
+/// the three maps compose to the switching map: `map[j] = perm1[dup[perm2[j]]]`.
+fn stream_switching_map(run: &mut Run) {
+    let mut rng = run.rng("switching");
+    for _ in 0..run.tier.scale(1200, 8000) {
+        let n = 1 + rng.below(9);
+        let ms = 1 + rng.below(n) as usize;
+        let batch: Vec<u64> = match rng.below(4) {
+            0 => vec![2],
+            1 => vec![1 + rng.below(2), 2],
+            _ => vec![],
+        };
+        let nmaps = batch.iter().product::<u64>() as usize;
+        let bad = rng.chance(1, 10);
+        let few = rng.chance(1, 3);
+        let mut data: Vec<u128> = (0..nmaps * ms).map(|_| if few { rng.below(2.min(n)) } else { rng.below(n) } as u128).collect();
+        if bad {
+            let k = rng.below(data.len() as u64) as usize;
+            data[k] = n as u128 + rng.below(3) as u128;
+        }
+        let mut shape = batch.clone();
+        shape.push(ms as u64);
+        let a = Opd { st: UINT64, dims: shape.clone(), scalar: false, data: data.clone() };
+        let built = eval_op(&[(a.ty(), a.value())], &|g, nn| g.decompose_switching_map(nn[0].clone(), n));
+        let descr = format!("decompose_switching_map n={} {} {}", n, show_list(&shape), show_list(&data));
+        run.count("op:DecomposeSwitchingMap");
+        run.oracle_case(&descr, true);
+        let (t, v) = match built {
+            Outcome::Panic(p) => {
+                run.oracle_fail("C10:panic:DecomposeSwitchingMap", format!("{} panicked: {}", descr, p));
+                continue;
+            }
+            Outcome::Rejected => {
+                run.oracle_fail("C10:unexpected-reject:DecomposeSwitchingMap", descr);
+                continue;
+            }
+            Outcome::EvalErr => {
+                run.count("err:DecomposeSwitchingMap");
+                if !bad {
+                    run.oracle_fail("C10:oracle:DecomposeSwitchingMap", format!("{} => run-time error on a valid map", descr));
+                }
+                continue;
+            }
+            Outcome::Done(t, v) => (t, v),
+        };
+        if bad {
+            run.oracle_fail("C10:oracle:DecomposeSwitchingMap", format!("{} accepted an index ≥ n", descr));
+            continue;
+        }
+        let parts = catch(|| -> Result<(Vec<u64>, Vec<u64>, Vec<u64>, Vec<u64>)> {
+            let ok = v.check_type(t.clone())?;
+            if !ok {
+                return Err(ciphercore_base::runtime_error!("type"));
+            }
+            let top = v.to_vector()?;
+            let dup = top[1].to_vector()?;
+            let at = array_type(shape.clone(), UINT64);
+            let bt = array_type(shape.clone(), BIT);
+            Ok((
+                top[0].to_flattened_array_u64(at.clone())?,
+                dup[0].to_flattened_array_u64(at.clone())?,
+                dup[1].to_flattened_array_u64(bt)?,
+                top[2].to_flattened_array_u64(at)?,
+            ))
+        });
+        let (p1, dm, db, p2) = match parts {
+            Ok(Ok(x)) => x,
+            _ => {
+                run.oracle_fail("C10:result-type:DecomposeSwitchingMap", descr);
+                continue;
+            }
+        };
+        let mut why = None;
+        if p1.len() != data.len() || dm.len() != data.len() || db.len() != data.len() || p2.len() != data.len() {
+            why = Some("lengths".to_owned());
+        } else {
+            for mi in 0..nmaps {
+                let r = mi * ms..(mi + 1) * ms;
+                let (x, p1, dm, db, p2) = (&data[r.clone()], &p1[r.clone()], &dm[r.clone()], &db[r.clone()], &p2[r.clone()]);
+                let mut s1 = p1.to_vec();
+                s1.sort();
+                s1.dedup();
+                if s1.len() != ms || p1.iter().any(|e| *e >= n) {
+                    why = Some(format!("map {}: perm1 {:?} is not injective into 0..n", mi, p1));
+                }
+                let mut s2 = p2.to_vec();
+                s2.sort();
+                if s2 != (0..ms as u64).collect::<Vec<_>>() {
+                    why = Some(format!("map {}: perm2 {:?} is not a permutation", mi, p2));
+                    continue;
+                }
+                for i in 0..ms {
+                    let want = if db[i] == 1 && i > 0 { dm[i - 1] } else { i as u64 };
+                    if db[i] > 1 || (i == 0 && db[0] != 0) || dm[i] != want {
+                        why = Some(format!("map {}: duplication map {:?} / bits {:?} break the documented equation at {}", mi, dm, db, i));
+                    }
+                }
+                if why.is_none() {
+                    for j in 0..ms {
+                        let got = p1[dm[p2[j] as usize] as usize];
+                        if got as u128 != x[j] {
+                            why = Some(format!("map {}: composition gives {} at position {}, switching map has {}", mi, got, j, x[j]));
+                        }
+                    }
+                }
+            }
+        }
+        if let Some(w) = why {
+            run.oracle_fail("C10:oracle:DecomposeSwitchingMap", format!("{} => perm1 {:?} dup {:?} bits {:?} perm2 {:?}: {}", descr, p1, dm, db, p2, w));
+        }
+    }
+}
+
+/// elements of a vector/tuple value, each an array of the given type, as residue lists
+fn read_elems(v: &Value, ts: &[Type]) -> Option<Vec<Vec<u128>>> {
+    let es = v.to_vector().ok()?;
+    if es.len() != ts.len() {
+        return None;
+    }
+    let mut out = vec![];
+    for (e, t) in es.iter().zip(ts) {
+        out.push(read_result(t, e)?.1);
+    }
+    Some(out)
+}
+
+fn show_vec(es: &[Vec<u128>]) -> String {
+    if es.is_empty() {
+        "-".to_owned()
+    } else {
+        es.iter().map(|e| show_list(e)).collect::<Vec<_>>().join(";")
+    }
+}
+
+fn stream_plumbing(run: &mut Run) {
+    let mut rng = run.rng("plumbing");
+    for _ in 0..run.tier.scale(1500, 10000) {
+        let which = rng.below(5);
+        match which {
+            0 => {
+                // Zip of k vectors of n arrays (element type may differ between the vectors)
+                let k = 2 + rng.below(3) as usize;
+                let n = rng.below(5); // 0 = empty vectors
+                let mut inputs = vec![];
+                let mut vecs: Vec<Vec<Vec<u128>>> = vec![];
+                let mut ets = vec![];
+                for _ in 0..k {
+                    let st = pick_st(&mut rng);
+                    let sh = gen_shape(&mut rng, 2, 3, 4);
+                    let et = array_type(sh.clone(), st);
+                    let es: Vec<Opd> = (0..n).map(|_| gen_opd(&mut rng, &sh, false, st)).collect();
+                    inputs.push((vector_type(n, et.clone()), Value::from_vector(es.iter().map(|e| e.value()).collect())));
+                    vecs.push(es.iter().map(|e| e.data.clone()).collect());
+                    ets.push(et);
+                }
+                let out = eval_any(&inputs, &|g, nn| g.zip(nn.to_vec()));
+                let req = format!("zip {} {}", k, vecs.iter().map(|v| show_vec(v)).collect::<Vec<_>>().join(" "));
+                // documented: result[i] = (v_0[i], ..., v_{k-1}[i])
+                let want = if n == 0 {
+                    "-".to_owned()
+                } else {
+                    (0..n as usize).map(|i| show_vec(&vecs.iter().map(|v| v[i].clone()).collect::<Vec<_>>())).collect::<Vec<_>>().join("|")
+                };
+                plumb_settle(run, "Zip", req, out, &|v: &Value| {
+                    let rows = v.to_vector().ok()?;
+                    let mut parts = vec![];
+                    for r in rows {
+                        parts.push(show_vec(&read_elems(&r, &ets)?));
+                    }
+                    Some(if parts.is_empty() { "-".to_owned() } else { parts.join("|") })
+                }, Some(want));
+            }
+            1 => {
+                let st = pick_st(&mut rng);
+                let sh = gen_shape(&mut rng, 2, 3, 6);
+                let a = gen_opd(&mut rng, &sh, false, st);
+                let n = rng.below(6); // 0 = empty vector
+                let out = eval_any(&[(a.ty(), a.value())], &|g, nn| g.repeat(nn[0].clone(), n));
+                let req = format!("repeat {} {}", n, show_list(&a.data));
+                let empty_as = |s: String| if s == "-" { "_".to_owned() } else { s };
+                let want = empty_as(show_vec(&vec![a.data.clone(); n as usize]));
+                let ts = vec![a.ty(); n as usize];
+                plumb_settle(run, "Repeat", req, out, &|v: &Value| Some(empty_as(show_vec(&read_elems(v, &ts)?))), Some(want));
+            }
+            _ => {
+                // CreateTuple / CreateNamedTuple / CreateVector followed by the matching accessor
+                let k = 1 + rng.below(4) as usize;
+                let st = pick_st(&mut rng);
+                let same = which == 3;
+                let sh0 = gen_shape(&mut rng, 1, 4, 4);
+                let es: Vec<Opd> = (0..k)
+                    .map(|_| {
+                        let sh = if same { sh0.clone() } else { gen_shape(&mut rng, 1, 4, 4) };
+                        gen_opd(&mut rng, &sh, false, st)
+                    })
+                    .collect();
+                let mut inputs: Vec<(Type, Value)> = es.iter().map(|e| (e.ty(), e.value())).collect();
+                let vecs = show_vec(&es.iter().map(|e| e.data.clone()).collect::<Vec<_>>());
+                if which == 2 {
+                    let id = rng.below(k as u64);
+                    let out = eval_any(&inputs, &|g, nn| g.tuple_get(g.create_tuple(nn.to_vec())?, id));
+                    let want = show_list(&es[id as usize].data);
+                    let t = es[id as usize].ty();
+                    plumb_settle(run, "TupleGet", format!("tupleget {} {}", id, vecs), out, &|v: &Value| Some(show_list(&read_result(&t, v)?.1)), Some(want));
+                } else if which == 3 {
+                    // index read at run time; out of range in 1 of 4 cases
+                    let id = if rng.chance(1, 4) { k as u64 + rng.below(3) } else { rng.below(k as u64) };
+                    let ist = *rng.pick(&[UINT32, UINT64]);
+                    inputs.push((scalar_type(ist), Value::from_scalar(id, ist).unwrap()));
+                    let et = es[0].ty();
+                    let out = eval_any(&inputs, &|g, nn| {
+                        let v = g.create_vector(et.clone(), nn[..k].to_vec())?;
+                        g.vector_get(v, nn[k].clone())
+                    });
+                    let want = if (id as usize) < k { show_list(&es[id as usize].data) } else { "ERR".to_owned() };
+                    let t = es[0].ty();
+                    plumb_settle(run, "VectorGet", format!("vecget {} {}", id, vecs), out, &|v: &Value| Some(show_list(&read_result(&t, v)?.1)), Some(want));
+                } else {
+                    let names: Vec<String> = (0..k).map(|i| format!("f{}", (i * 7 + 3) % 10)).collect();
+                    let id = rng.below(k as u64) as usize;
+                    let names2 = names.clone();
+                    let key = names[id].clone();
+                    let out = eval_any(&inputs, &|g, nn| {
+                        let t = g.create_named_tuple(names2.iter().cloned().zip(nn.iter().cloned()).collect())?;
+                        g.named_tuple_get(t, key.clone())
+                    });
+                    // the first field with that name
+                    let first = names.iter().position(|x| *x == names[id]).unwrap();
+                    let want = show_list(&es[first].data);
+                    let t = es[first].ty();
+                    plumb_settle(run, "NamedTupleGet", format!("namedget {} {} {}", names[id], names.join(";"), vecs), out, &|v: &Value| Some(show_list(&read_result(&t, v)?.1)), Some(want));
+                }
+            }
+        }
+    }
+}
+
+fn plumb_settle(run: &mut Run, op: &str, req: String, out: Outcome, show: &dyn Fn(&Value) -> Option<String>, want: Option<String>) {
+    run.count(&format!("op:{}", op));
+    run.oracle_case(&req, true);
+    let imp = match out {
+        Outcome::Panic(p) => {
+            run.oracle_fail(&format!("C10:panic:{}", op), format!("{} panicked: {}", req, p));
+            return;
+        }
+        Outcome::Rejected => {
+            // duplicate field names are refused by the builder: not a case
+            if op == "NamedTupleGet" {
+                run.count("rejected:NamedTupleGet");
+            } else {
+                run.oracle_fail(&format!("C10:unexpected-reject:{}", op), format!("{} rejected by the builder", req));
+            }
+            return;
+        }
+        Outcome::EvalErr => {
+            run.count(&format!("err:{}", op));
+            "ERR".to_owned()
+        }
+        Outcome::Done(t, v) => {
+            let ok = v.check_type(t).unwrap_or(false);
+            match (ok, show(&v)) {
+                (true, Some(s)) => s,
+                _ => {
+                    run.oracle_fail(&format!("C10:result-type:{}", op), format!("{} result does not have the node type", req));
+                    return;
+                }
+            }
+        }
+    };
+    if let Some(w) = want {
+        if imp != w {
+            run.oracle_fail(&format!("C10:oracle:{}", op), format!("{} => impl {} documented {}", req, trunc_s(&imp), trunc_s(&w)));
+        }
+    }
+    run.case(req, imp, true);
+}
+
+/// round trips of ApplyPermutation (two- and three-operation graphs; oracle only, the identities are
+/// theorem `applyPermutation_roundtrip`): apply_inverse(p) ∘ apply(p), apply(p) ∘ apply_inverse(p) and
+/// apply(inverse_permutation(p)) ∘ apply(p) return the payload
+fn stream_perm_roundtrip(run: &mut Run) {
+    let mut rng = run.rng("perm-roundtrip");
+    for _ in 0..run.tier.scale(600, 4000) {
+        let st = if rng.chance(1, 3) { *rng.pick(&[UINT128, INT128]) } else { pick_st(&mut rng) };
+        let n = 1 + rng.below(7);
+        let mut shape = vec![n];
+        if rng.chance(2, 3) {
+            shape.extend(gen_shape(&mut rng, 2, 3, 6));
+        }
+        let a = gen_opd(&mut rng, &shape, false, st);
+        let mut p: Vec<u128> = (0..n as u128).collect();
+        rng.shuffle(&mut p);
+        let pv = Opd { st: UINT64, dims: vec![n], scalar: false, data: p.clone() };
+        let variant = rng.below(3);
+        let out = eval_op(&[(a.ty(), a.value()), (pv.ty(), pv.value())], &|g, nn| match variant {
+            0 => g.apply_inverse_permutation(g.apply_permutation(nn[0].clone(), nn[1].clone())?, nn[1].clone()),
+            1 => g.apply_permutation(g.apply_inverse_permutation(nn[0].clone(), nn[1].clone())?, nn[1].clone()),
+            _ => g.apply_permutation(g.apply_permutation(nn[0].clone(), nn[1].clone())?, g.inverse_permutation(nn[1].clone())?),
+        });
+        let descr = format!("perm-roundtrip {} {} {} {} {}", variant, st_name(st), show_list(&shape), show_list(&a.data), show_list(&p));
+        run.count("op:perm-roundtrip");
+        run.oracle_case(&descr, true);
+        match out {
+            Outcome::Done(t, v) => match read_result(&t, &v) {
+                Some((dims, data, _)) if dims == shape && data == a.data => {}
+                Some((_, data, _)) => run.oracle_fail("C10:oracle:perm-roundtrip", format!("{} => {}", descr, show_list(&data))),
+                None => run.oracle_fail("C10:result-type:perm-roundtrip", descr),
+            },
+            Outcome::Panic(p) => run.oracle_fail("C10:panic:perm-roundtrip", format!("{} panicked: {}", descr, p)),
+            _ => run.oracle_fail("C10:oracle:perm-roundtrip", format!("{} => rejected or run-time error", descr)),
+        }
+    }
+}
+
 pub fn corr(run: &mut Run) {
     run.rule = "one-operation graphs (simple_context + SimpleEvaluator): all 11 scalar types, shapes of rank 1..4 with \
                 size-1 / missing broadcast axes, boundary-biased elements (0, ±1, min, max, 2^k±1, ≥ 2^64 for the 128-bit types), \
@@ -1641,7 +2279,12 @@ pub fn corr(run: &mut Run) {
                 bounds, transposition flags, outer shapes, gather indices incl. out-of-range); plus direct calls of the \
                 bytes.rs kernels (u64 with arbitrary modulus, u128 with 2^k / wrapping) and of number_to_index / \
                 index_to_number. Every case is answered by the Lean model (exact) and by a native nested-loop reference \
-                interpreter (oracle). Non-trivial: at least one array operand; distinct by request text."
+                interpreter (oracle). Further streams: SegmentCumSum (1..9 rows, scalar / rank 1-2 rows, bit patterns all-0 / all-1 / \
+                alternating / one start / random; oracle = documented iteration and segment sums), CuckooHash (1-4 sets, tables of \
+                2..16 cells, 3-5 hash matrices, loads from one string to one more than the table holds, distinct and repeated \
+                strings, sparse matrices; oracle = placement property), Zip / Repeat / tuple, named-tuple and vector accessors \
+                (model + oracle); CuckooToPermutation, DecomposeSwitchingMap and permutation round trips are checked against \
+                their property-level oracle only (randomised results). Non-trivial: at least one array operand; distinct by request text."
         .to_owned();
     stream_index(run);
     stream_kernels(run);
@@ -1651,4 +2294,9 @@ pub fn corr(run: &mut Run) {
     stream_index_ops(run);
     stream_structural(run);
     stream_bits(run);
+    stream_segcumsum(run);
+    stream_cuckoo(run);
+    stream_switching_map(run);
+    stream_plumbing(run);
+    stream_perm_roundtrip(run);
 }
